@@ -233,13 +233,15 @@ theorem inv_updateTable (c : Client) (name : Bytes) (chs : List IndexChange) (hc
   | none => exact hc
   | some t =>
     simp only
-    have hk := updateTable_go_keeps chs { t with attrs := (chs.flatMap fun ch => match ch with | .create d => defsOf d.key | .delete _ => []).foldl (fun acc (n, ty) => ainsert n ty acc) t.attrs }
-    have hinv : TableInv (updateTable.go { t with attrs := (chs.flatMap fun ch => match ch with | .create d => defsOf d.key | .delete _ => []).foldl (fun acc (n, ty) => ainsert n ty acc) t.attrs } chs).1 :=
-      tableInv_of_same (hc name t ht) hk.1 hk.2
-    generalize updateTable.go _ chs = res at hinv
-    obtain ⟨t', e⟩ := res
-    simp only at hinv ⊢
-    cases e <;> exact inv_setTable c name t' hc hinv
+    split
+    · exact hc
+    · have hk := updateTable_go_keeps chs { t with attrs := (chs.flatMap fun ch => match ch with | .create d => defsOf d.key | .delete _ => []).foldl (fun acc (n, ty) => ainsert n ty acc) t.attrs }
+      have hinv : TableInv (updateTable.go { t with attrs := (chs.flatMap fun ch => match ch with | .create d => defsOf d.key | .delete _ => []).foldl (fun acc (n, ty) => ainsert n ty acc) t.attrs } chs).1 :=
+        tableInv_of_same (hc name t ht) hk.1 hk.2
+      generalize updateTable.go _ chs = res at hinv
+      obtain ⟨t', e⟩ := res
+      simp only at hinv ⊢
+      cases e <;> exact inv_setTable c name t' hc hinv
 
 /-! ### every operation, every history -/
 
@@ -629,15 +631,17 @@ theorem step_inv2 (c : Client) (op : Op) (hc : ClientInv2 c) : ClientInv2 (step 
     | none => exact hc
     | some t =>
       simp only
-      have hk := updateTable_go_keeps chs { t with attrs := (chs.flatMap fun ch => match ch with | .create d => defsOf d.key | .delete _ => []).foldl (fun acc (n, ty) => ainsert n ty acc) t.attrs }
-      have hinv : TableInv (updateTable.go { t with attrs := (chs.flatMap fun ch => match ch with | .create d => defsOf d.key | .delete _ => []).foldl (fun acc (n, ty) => ainsert n ty acc) t.attrs } chs).1 :=
-        tableInv_of_same (hc name t ht).1 hk.1 hk.2
-      have hix : IxInv (updateTable.go { t with attrs := (chs.flatMap fun ch => match ch with | .create d => defsOf d.key | .delete _ => []).foldl (fun acc (n, ty) => ainsert n ty acc) t.attrs } chs).1 :=
-        ixInv_updateTable_go chs _ (ixInv_of_indexes (hc name t ht).2 rfl)
-      generalize updateTable.go _ chs = res at hinv hix
-      obtain ⟨t', e⟩ := res
-      simp only at hinv hix ⊢
-      cases e <;> exact inv2_setTable c name t' hc hinv hix
+      split
+      · exact hc
+      · have hk := updateTable_go_keeps chs { t with attrs := (chs.flatMap fun ch => match ch with | .create d => defsOf d.key | .delete _ => []).foldl (fun acc (n, ty) => ainsert n ty acc) t.attrs }
+        have hinv : TableInv (updateTable.go { t with attrs := (chs.flatMap fun ch => match ch with | .create d => defsOf d.key | .delete _ => []).foldl (fun acc (n, ty) => ainsert n ty acc) t.attrs } chs).1 :=
+          tableInv_of_same (hc name t ht).1 hk.1 hk.2
+        have hix : IxInv (updateTable.go { t with attrs := (chs.flatMap fun ch => match ch with | .create d => defsOf d.key | .delete _ => []).foldl (fun acc (n, ty) => ainsert n ty acc) t.attrs } chs).1 :=
+          ixInv_updateTable_go chs _ (ixInv_of_indexes (hc name t ht).2 rfl)
+        generalize updateTable.go _ chs = res at hinv hix
+        obtain ⟨t', e⟩ := res
+        simp only at hinv hix ⊢
+        cases e <;> exact inv2_setTable c name t' hc hinv hix
   | clearTable n =>
     simp only [step, withTable]
     cases alookup n c.tables with
@@ -1264,20 +1268,24 @@ theorem step_inv3 (c : Client) (op : Op) (hc : ClientInv3 c) (hsafe : SafeOp c o
     | none => exact hc
     | some t =>
       simp only [ht] at hsafe ⊢
-      generalize hA : (chs.flatMap fun ch => match ch with | .create d => defsOf d.key | .delete _ => []).foldl (fun acc (n, ty) => ainsert n ty acc) t.attrs = A at hsafe ⊢
-      have hattrs := updateTable_go_attrs chs { t with attrs := A }
-      have hkeep : AttrsKeep t A := by
-        have := hsafe t (updateTable.go { t with attrs := A } chs).1 rfl
-        rw [hattrs] at this
-        apply this
-        generalize updateTable.go { t with attrs := A } chs = res
+      split
+      · exact hc
+      · rename_i hr
+        rw [if_neg hr] at hsafe
+        generalize hA : (chs.flatMap fun ch => match ch with | .create d => defsOf d.key | .delete _ => []).foldl (fun acc (n, ty) => ainsert n ty acc) t.attrs = A at hsafe ⊢
+        have hattrs := updateTable_go_attrs chs { t with attrs := A }
+        have hkeep : AttrsKeep t A := by
+          have := hsafe t (updateTable.go { t with attrs := A } chs).1 rfl
+          rw [hattrs] at this
+          apply this
+          generalize updateTable.go { t with attrs := A } chs = res
+          obtain ⟨t', e⟩ := res
+          cases e <;> simp [alookup_ainsert_self]
+        have hinv := tblInv_updateTable_go chs { t with attrs := A } (tblInv_attrs t A (hc name t ht) hkeep)
+        generalize updateTable.go { t with attrs := A } chs = res at hinv
         obtain ⟨t', e⟩ := res
-        cases e <;> simp [alookup_ainsert_self]
-      have hinv := tblInv_updateTable_go chs { t with attrs := A } (tblInv_attrs t A (hc name t ht) hkeep)
-      generalize updateTable.go { t with attrs := A } chs = res at hinv
-      obtain ⟨t', e⟩ := res
-      simp only at hinv ⊢
-      cases e <;> exact inv3_setTable c name t' hc hinv
+        simp only at hinv ⊢
+        cases e <;> exact inv3_setTable c name t' hc hinv
   | clearTable n =>
     simp only [step, withTable]
     cases alookup n c.tables with
